@@ -418,6 +418,20 @@ func (self *visitorUserNode) OnFloat64(v float64, n json.Number) error {
 		if err = self.p.WriteInt64(convertData); err != nil {
 			return err
 		}
+	// NOTICE: an integer above the int64 range comes here as well, its literal tells the exact value
+	case proto.Uint64Kind, proto.Fixed64Kind:
+		convertData, e := strconv.ParseUint(string(n), 10, 64)
+		if e != nil {
+			return newError(meta.ErrDismatchType, "param isn't uintType", e)
+		}
+		if fieldDesc.Kind() == proto.Fixed64Kind {
+			err = self.p.WriteFixed64(convertData)
+		} else {
+			err = self.p.WriteUint64(convertData)
+		}
+		if err != nil {
+			return err
+		}
 	default:
 		return newError(meta.ErrDismatchType, "param isn't floatType", nil)
 	}
